@@ -19,6 +19,12 @@ run_demo() { # $1 = label
       *) cp $SRC/$d . ;;
     esac
   done
+  if grep -lq "^package command" $SRC/*_test.go 2>/dev/null; then
+    for d in $DEMOS; do if grep -q "^package command" $SRC/$d; then rm -f ./$d; cp $SRC/$d cmd/bbolt/command/; fi; done
+    $G test -vet=off -count=1 -timeout 300s -run 'Demo|Seed|ZZ|Zz' ./cmd/bbolt/command/ > /tmp/cs/$NAME.demo.$1.log 2>&1; r0=$?
+    for d in $DEMOS; do rm -f cmd/bbolt/command/$d; done
+    [ $r0 -eq 0 ]; return
+  fi
   if grep -lq "^package freelist" $SRC/*_test.go 2>/dev/null; then
     for d in $DEMOS; do if grep -q "^package freelist" $SRC/$d; then rm -f ./$d; cp $SRC/$d internal/freelist/; fi; done
     $G test -vet=off -count=1 -timeout 300s -run 'Demo|Seed|ZZ|Zz' ./internal/freelist/ > /tmp/cs/$NAME.demo.$1.log 2>&1; r1=$?
